@@ -208,9 +208,32 @@ def sweep_specs(tier: str = "quick") -> list[dict]:
     return out
 
 
+def lifecycle_specs() -> list[dict]:
+    """Local stop conditions whose verdict depends on state that changes between a deme's turns (C06)."""
+    out = []
+    base = {"dim": 2, "box": "sym", "fn": "multi", "maximize": False, "gsc": {"kind": "MetaepochLimit", "n": 6}}
+    n = 0
+    for child in ({"engine": "LOCAL"}, {"engine": "CMA", "gens": 1, "lsc": {"kind": "MetaepochLimit", "n": 1}},
+                  {"engine": "DE", "pop": 5, "gens": 1, "lsc": {"kind": "MetaepochLimit", "n": 2}},
+                  {"engine": "SEA", "pop": 5, "gens": 2, "lsc": {"kind": "DontRun"}}):
+        for hib in (False, True):
+            for limit in (1, 2):
+                n += 1
+                out.append(dict(base, name=f"life{n}", seed=300 + n, hibernation=hib,
+                                levels=[{"engine": "SEA", "pop": 6, "gens": 1, "lsc": {"kind": "AllChildrenStopped"}}, child],
+                                sprout={"kind": "simple", "far": 0.01, "limit": limit}))
+    for hib in (False, True):
+        n += 1
+        out.append(dict(base, name=f"life{n}", seed=300 + n, hibernation=hib,
+                        levels=[{"engine": "DE", "pop": 6, "gens": 1}, {"engine": "SEA", "pop": 5, "gens": 1, "lsc": {"kind": "AllChildrenStopped"}},
+                                {"engine": "LOCAL", "maxiter": 2}],
+                        sprout={"kind": "simple", "far": 0.01, "limit": 2}))
+    return out
+
+
 def gen_specs(seed: int, n_random: int, tier: str = "quick") -> list[dict]:
     r = random.Random(seed)
-    specs = repo_test_specs() + sweep_specs(tier)
+    specs = repo_test_specs() + sweep_specs(tier) + lifecycle_specs()
     for i in range(n_random):
         specs.append(random_spec(r, i))
     return specs
